@@ -31,6 +31,12 @@ REQUIRED_COUNTERS = [
     "stale_checker_silent",
 ]
 
+ANCHORS = [
+    "statham.schema.validation.format:_FormatString.__call__",
+    "statham.schema.validation.format:_FormatString.register",
+    "statham.schema.validation.string:Format._validate",
+]
+
 
 def plan(tier):
     if tier == "quick":
